@@ -23,6 +23,7 @@ type EvalCtx struct {
 	copyFromOld bool
 	wit         []string // candidate witnesses for Int-bound existentials (loop indices)
 	witDepth    int
+	frameBase   string // allocation watermark for frame formulas (default: allocbase = function entry)
 	goal        bool // expression is an obligation (not an assumption)
 	neg         bool // current polarity is negative
 	nopol       bool // under an equivalence: polarity unknown
@@ -871,7 +872,7 @@ func (ec *EvalCtx) evalCall(x *ECall) Val {
 		var parts []string
 		for _, mn := range sortedKeys(ex.S.Models) {
 			md := ex.S.Models[mn]
-			if len(md.Params) == 0 || !md.Params[0].Obj {
+			if len(md.Params) == 0 || !(md.Params[0].Obj && md.Params[0].Name == "o") {
 				continue
 			}
 			if len(x.Args) > 2 && ec.exceptListed(x.Args[2:], mn) {
@@ -954,7 +955,13 @@ func (ec *EvalCtx) evalCall(x *ECall) Val {
 		if ec.loopEntry == nil {
 			ec.fail("gomem_unchanged_in_loop() only inside loop invariants")
 		}
-		return Val{T: ec.memFrame(ec.loopEntry, ec.mem, false), S: SBool}
+		sv := ec.frameBase
+		if ec.loop != nil && ec.loop.frameBase != "" {
+			ec.frameBase = ec.loop.frameBase
+		}
+		r := ec.memFrame(ec.loopEntry, ec.mem, false)
+		ec.frameBase = sv
+		return Val{T: r, S: SBool}
 	case "mapkeys": // key set of a Go map
 		v := ec.eval(x.Args[0])
 		if v.G != nil {
@@ -1124,8 +1131,8 @@ func (ec *EvalCtx) memFrame(a, b *MemState, withModels bool) string {
 	}
 	seen := map[string]bool{}
 	var ks []string
-	for k := range ex.arrSorts { // all heap-cell classes known to the engine (pre-registered at start)
-		if strings.HasPrefix(k, "M_") {
+	for k := range ex.arrSorts { // all heap-cell and map classes known to the engine (scalar classes are pre-registered)
+		if strings.HasPrefix(k, "M_") || strings.HasPrefix(k, "MH_") || strings.HasPrefix(k, "MV_") || k == "ML" {
 			seen[k] = true
 			ks = append(ks, k)
 		}
@@ -1135,7 +1142,7 @@ func (ec *EvalCtx) memFrame(a, b *MemState, withModels bool) string {
 			if seen[k] {
 				continue
 			}
-			if strings.HasPrefix(k, "M_") || (withModels && strings.HasPrefix(k, "F_")) {
+			if strings.HasPrefix(k, "M_") || strings.HasPrefix(k, "MH_") || strings.HasPrefix(k, "MV_") || k == "ML" || (withModels && strings.HasPrefix(k, "F_")) {
 				if md := ex.S.Models[strings.TrimPrefix(k, "F_")]; strings.HasPrefix(k, "F_") && (md == nil || md.Ghost || len(md.Params) == 0) {
 					continue
 				}
@@ -1158,7 +1165,11 @@ func (ec *EvalCtx) memFrame(a, b *MemState, withModels bool) string {
 				continue
 			}
 		}
-		parts = append(parts, fmt.Sprintf("(forall ((a Int)) (! (=> (<= (root a) allocbase) (= (select %s a) (select %s a))) :pattern ((select %s a))))", x, y, y))
+		base := ec.frameBase
+		if base == "" {
+			base = "allocbase"
+		}
+		parts = append(parts, fmt.Sprintf("(forall ((a Int)) (! (=> (<= (root a) %s) (= (select %s a) (select %s a))) :pattern ((select %s a))))", base, x, y, y))
 	}
 	return and(parts...)
 }
